@@ -28,6 +28,21 @@ func c05r1(r *R) {
 	}
 	bad := map[string]bool{}
 	classes := map[string]int{}
+	untouchedElsewhere := true
+	for _, fn := range r.modFuncs() {
+		if fn == cp {
+			continue
+		}
+		for _, f := range append([]*ssa.Function{fn}, anonFuncs(fn)...) {
+			eachInstr(f, func(ins ssa.Instruction) {
+				if st, ok := ins.(*ssa.Store); ok {
+					if fa, ok := st.Addr.(*ssa.FieldAddr); ok && structName(fa.X.Type()) == "forwarder.HTTPProxy" && fieldName(fa.X.Type(), fa.Field) == "proxyFunc" {
+						untouchedElsewhere = false
+					}
+				}
+			})
+		}
+	}
 	for _, p := range ps {
 		if len(p.Ret) != 1 || p.Ret[0] != "nil" {
 			continue
@@ -78,6 +93,10 @@ func c05r1(r *R) {
 		got := "$0.proxyFunc"
 		if len(pf) > 0 {
 			got = pf[len(pf)-1]
+		}
+		// nothing but configureProxy ever assigns proxyFunc: before it, the field of the new HTTPProxy is nil
+		if untouchedElsewhere {
+			got, want, installed = strings.ReplaceAll(got, "$0.proxyFunc", "nil"), strings.ReplaceAll(want, "$0.proxyFunc", "nil"), strings.ReplaceAll(installed, "$0.proxyFunc", "nil")
 		}
 		if got != want {
 			bad[fmt.Sprintf("configuration [%s]: proxy function is %s, expected %s", cls, got, want)] = true
@@ -628,10 +647,20 @@ func parseModeMapTable(r *R, pm *ssa.Function, ps []Path, modes map[string]strin
 			}
 		}
 	})
-	if g == nil || len(ps) != 2 {
+	if g == nil || len(ps) != 2 && len(ps) != 1 {
 		return nil, false
 	}
 	var why []string
+	if len(ps) == 1 {
+		// `return table[s]`: a keyword that is not in the table yields the zero Mode, which must be DIRECT
+		if !strings.HasSuffix(ps[0].Ret[0], "[$0]") || len(ps[0].Conds) != 0 {
+			return nil, false
+		}
+		if modes["0"] != "DIRECT" {
+			why = append(why, "unknown keyword maps to the zero Mode, which is "+modes["0"])
+		}
+		ps = nil
+	}
 	for _, p := range ps {
 		hit := p.hasCond(func(c string) bool { return strings.HasSuffix(c, "[$0]#1") && !strings.HasPrefix(c, "!") })
 		if hit && !strings.HasSuffix(p.Ret[0], "[$0]") {
